@@ -29,6 +29,9 @@ pub struct Case {
     pub values: Values,
     /// also send a sample through a real binary resultset
     pub wire: bool,
+    /// other column flag bits (ZEROFILL, BINARY, NUM, ...): they must not change which range applies
+    #[serde(default)]
+    pub extra_flags: u16,
 }
 
 fn base_of(rust_type: usize, v: i128) -> Option<Base> {
@@ -148,7 +151,7 @@ impl Prop for C15 {
         "C15"
     }
     fn rule(&self) -> String {
-        "cases = (Rust integer type in {u8,i8,u16,i16,u32,i32,u64,i64,usize,isize} or generic Value::Int/UInt) x (column type in {TINY,SHORT,YEAR,INT24,LONG,LONGLONG} x {signed,unsigned}) x a set of values: ALL values for 8- and 16-bit types (enumerated, exhaustive), all 2^k, 2^k+-1, -(2^k)+-1 and range bounds for wider types (enumerated), plus random wide values. Each value goes through the public encoder to_mysql_bin; oracle: Ok => bytes decoded at the column's wire width and signedness equal the value as a mathematical integer; it must be accepted when the column's range contains the whole fixed-width Rust type (for usize/isize: the value); otherwise any refusal is fine. A sample additionally travels through a real binary resultset. Non-trivial = the value set contains a value the column cannot represent, or a value outside i8's range.".into()
+        "cases = (Rust integer type in {u8,i8,u16,i16,u32,i32,u64,i64,usize,isize} or generic Value::Int/UInt) x (column type in {TINY,SHORT,YEAR,INT24,LONG,LONGLONG} x {signed,unsigned}) (optionally with other column flag bits such as ZEROFILL or BINARY set, which must not matter) x a set of values: ALL values for 8- and 16-bit types (enumerated, exhaustive), all 2^k, 2^k+-1, -(2^k)+-1 and range bounds for wider types (enumerated), plus random wide values. Each value goes through the public encoder to_mysql_bin; oracle: Ok => bytes decoded at the column's wire width and signedness equal the value as a mathematical integer; it must be accepted when the column's range contains the whole fixed-width Rust type (for usize/isize: the value); otherwise any refusal is fine. A sample additionally travels through a real binary resultset. Non-trivial = the value set contains a value the column cannot represent, or a value outside i8's range.".into()
     }
     fn assumptions(&self) -> Vec<String> {
         vec!["a deliberate assert! panic of the encoder counts as a refusal (nothing is sent)".into()]
@@ -177,17 +180,25 @@ impl Prop for C15 {
             };
             vals.push(enc(v));
         }
-        Case { rust_type, coltype: *g.pick(&INT_COLTYPES), unsigned: g.coin(), values: Values::List(vals), wire: g.chance(1, 10) }
+        let extra_flags = match g.weighted(&[4, 2, 2]) {
+            0 => 0,
+            1 => *g.pick(&[64u16, 128, 512, 0x8000, 2, 4096]),
+            _ => g.raw() as u16 & !(FLAG_UNSIGNED | FLAG_NOT_NULL),
+        };
+        Case { rust_type, coltype: *g.pick(&INT_COLTYPES), unsigned: g.coin(), values: Values::List(vals), wire: g.chance(1, 10), extra_flags }
     }
     fn fixed(&self, _tier: Tier) -> Vec<Case> {
         let mut v = Vec::new();
         for rust_type in 0..12 {
             for &coltype in &INT_COLTYPES {
                 for unsigned in [false, true] {
-                    if rust_type < 4 {
-                        v.push(Case { rust_type, coltype, unsigned, values: Values::All, wire: false });
-                    } else {
-                        v.push(Case { rust_type, coltype, unsigned, values: Values::List(boundary_values(rust_type).into_iter().map(enc).collect()), wire: true });
+                    // once with no other flag, once with every other flag bit set (ZEROFILL, BINARY, NUM, ...)
+                    for extra_flags in [0u16, 0xffff & !(FLAG_UNSIGNED | FLAG_NOT_NULL)] {
+                        if rust_type < 4 {
+                            v.push(Case { rust_type, coltype, unsigned, values: Values::All, wire: false, extra_flags });
+                        } else {
+                            v.push(Case { rust_type, coltype, unsigned, values: Values::List(boundary_values(rust_type).into_iter().map(enc).collect()), wire: extra_flags == 0, extra_flags });
+                        }
                     }
                 }
             }
@@ -196,7 +207,10 @@ impl Prop for C15 {
     }
     fn exec(&self, case: &Case) -> Exec {
         let mut ex = Exec::default();
-        let col = ColSpec { table: "t".into(), name: "c".into(), coltype: case.coltype, flags: if case.unsigned { FLAG_UNSIGNED } else { 0 } };
+        let col = ColSpec { table: "t".into(), name: "c".into(), coltype: case.coltype, flags: (if case.unsigned { FLAG_UNSIGNED } else { 0 }) | (case.extra_flags & !(FLAG_UNSIGNED | FLAG_NOT_NULL)) };
+        if case.extra_flags != 0 {
+            ex.class("column-with-other-flag-bits");
+        }
         let values: Vec<i128> = match &case.values {
             Values::All => {
                 let (lo, hi) = type_range(case.rust_type);
